@@ -40,7 +40,7 @@ def col_rec(c):
             "cands": [str(x) for x in c.parent_candidates], "key": "%s@%s" % (c, _okey(p)), "oclass": _oclass(p)}
 
 
-def dump(sql, dialect="ansi", metadata=None, silent=False, verbose=False, want_graph=True, provider=None):
+def dump(sql, dialect="ansi", metadata=None, silent=False, verbose=False, want_graph=True, provider=None, pre_calls=()):
     """metadata: dict 'schema.table' -> [cols] (DummyMetaDataProvider) or None"""
     from sqllineage.core.metadata.dummy import DummyMetaDataProvider
     from sqllineage.core.models import Column, Path, SubQuery, Table
@@ -56,6 +56,16 @@ def dump(sql, dialect="ansi", metadata=None, silent=False, verbose=False, want_g
             elif metadata is not None:
                 kw["metadata_provider"] = DummyMetaDataProvider(metadata)
             lr = LineageRunner(sql, dialect=dialect, silent_mode=silent, verbose=verbose, **kw)
+            for kw in pre_calls:
+                # other views of the same runner asked first (accessors can be called in any order, any number of times)
+                if kw == "cytoscape_column":
+                    lr.to_cytoscape(LineageLevel.COLUMN)
+                elif kw == "cytoscape_table":
+                    lr.to_cytoscape()
+                elif kw == "str":
+                    str(lr)
+                else:
+                    lr.get_column_lineage(**kw)
             out["statements"] = list(lr.statements())
             out["source"] = [str(t) for t in lr.source_tables]
             out["target"] = [str(t) for t in lr.target_tables]
